@@ -151,6 +151,41 @@ def any_and_all_stop_at_the_deciding_element(b):
   })
 
 
+def tick(x):
+  return None
+
+
+def tick_all(xs):
+  i = 0
+  while i < len(xs):
+    tick(xs[i])
+    i += 1
+  return i
+
+
+def _mk_ghost_loop(name, inv):
+  @unit(P, target="contracts.self_engine:tick_all", name=name)
+  def u(b):
+    """2026-09-25: ghost counters advanced by callee contracts were not havocked at a loop cut, so an invariant over them was
+    only checked from their INITIAL value (a seeded change in Connection.read's loop went unreported)"""
+    xs = b.bytes("xs", None, 0, 50)
+    n = xs.length() if b.mode == "sym" else len(xs)
+    if b.mode == "sym":
+      b.st.ghost["ticks"] = 0
+    def count(I, st, f, args, kws):
+      from pyvc.values import concretize
+      st.ghost["ticks"] = concretize(st.ghost["ticks"] + 1)
+    cs = {"contracts.self_engine:tick": CallSpec("contract", ghost=count, envelope="counts its calls")}
+    return Case(tick_all, [xs], calls=cs, loops={("contracts.self_engine:tick_all", 1): LoopSpec(invariant=inv, name=name)},
+                ensures={"ok_returns_the_length": lambda res: res == n})
+  return u
+
+
+_mk_ghost_loop("ok_ghost_counter_follows_the_index", lambda v: v.g_ticks == v.i and 0 <= v.i and v.i <= len(v.xs))
+_mk_ghost_loop("bad_ghost_invariant_that_only_survives_the_first_iteration",
+               lambda v: v.g_ticks == v.i and 0 <= v.i and v.i <= len(v.xs) and v.g_ticks <= 1)
+
+
 class Cb(object):
   def m(self):
     return 1
